@@ -32,7 +32,7 @@ def rblock_comment_value(r, hostile=True):
 
 def rinline_comment_value(r, hostile=True):
     v = rline(r, hostile)
-    return v.lstrip(' ')  # values with leading blanks have no raw text (the parser strips them)
+    return v if r.random() < 0.5 else r.choice([' ', '  ', '   ']) + v     # leading blanks are part of the value
 
 
 def rdate(r):
@@ -58,8 +58,7 @@ def rnumber(r):
 
 def rsigned(r):
     v = rnumber(r)
-    # (a negated value is evaluated with a unary minus, which rounds to the decimal context: long values stay positive)
-    return -v if r.random() < 0.3 and v != 0 and len(v.as_tuple().digits) <= 28 else v
+    return v.copy_negate() if r.random() < 0.3 and v != 0 else v
 
 
 ACCOUNTS = ['Assets:New', 'Income:Ü:X', 'Expenses:A-1:B2', 'Liabilities:Z', 'Équity:Ö']
